@@ -1663,7 +1663,7 @@ func Prop() *core.Prop {
 		},
 		Cases: func(tier string) int {
 			if tier == "thorough" {
-				return 400000
+				return 8000000
 			}
 			return 21000
 		},
